@@ -90,7 +90,7 @@ def main():
         res["suite_with_patch"] = "pass" if not bad else "FAIL: " + " | ".join(bad[:6])
         res["ran"].append("go build ./... && go test -vet=off -count=1 ./...   (patched)")
         # our checks
-        vm = "/tmp/vmut"
+        vm = os.environ.get("VMUT", "/tmp/vmut")
         if not os.path.isdir(vm):
             sh("cp -r /verif %s" % vm)
         else:
